@@ -89,13 +89,13 @@ theorem jobsLe_step {c : Cfg} (hw : c.wiring = Wiring.std) {s s' : State} {a : A
     rcases hc with ⟨_, rfl⟩ | ⟨_, _, rfl⟩ | ⟨_, _, rfl⟩ <;> exact hle
   | workerEnd w o cancel =>
     obtain ⟨j, _, rfl⟩ := inv_workerEnd h
-    have e : (afterBody s j o cancel).caller = s.caller ∧ (afterBody s j o cancel).loop = s.loop ∧
-        (afterBody s j o cancel).enq = s.enq := by unfold afterBody; split <;> simp
+    have e : (afterBody c s j o cancel).caller = s.caller ∧ (afterBody c s j o cancel).loop = s.loop ∧
+        (afterBody c s j o cancel).enq = s.enq := by unfold afterBody; split <;> simp
     simp only [setW_caller, setW_loop, setW_enq, e.1, e.2.1, e.2.2]; exact hle
   | workerPost w => obtain ⟨_, _, _, _, rfl⟩ := inv_workerPost h; exact hle
   | workerDiePost w => obtain ⟨_, _, _, rfl⟩ := inv_workerDiePost hw h; exact hle
   | workerExit w => obtain ⟨_, _, rfl⟩ := inv_workerExit h; exact hle
-  | cancel => obtain ⟨_, rfl⟩ := inv_cancel h; exact hle
+  | cancel => obtain ⟨_, _, rfl⟩ := inv_cancel h; exact hle
 
 /-- The loop has registered at most the jobs the caller submitted. -/
 theorem jobs_le_sent {c : Cfg} (hw : c.wiring = Wiring.std) (acts : List Act) (s : State)
@@ -208,13 +208,13 @@ theorem ended_perm_of_nil (c : Cfg) (hw : c.wiring = Wiring.std) (hwf : WfCfg c)
       (by simp [Ev.isEndedOf]) (by simp [Ev.isEndedOf])
     simpa using this
 
-/-- **ContinueOnError, loop left its `for`, no cancellation, bodies fail with an error that names
+/-- **ContinueOnError, loop left its `for`, no job's context cancelled, bodies fail with an error that names
     their job:** the accumulated error has exactly one entry per body that failed — the body's own
     error —, in the order in which the loop saw the results; as a multiset these are the failures
     of the `ended` events. -/
 theorem coe_err_perm (c : Cfg) (hw : c.wiring = Wiring.std) (hwf : WfCfg c) (hc : c.coe = true)
     (acts : List Act) (s : State) (hr : run c (init c) acts = some s) (hp : s.loop.phase ≠ .select)
-    (hnc : Ev.cancelled ∉ s.log) (hid : ∀ j o, Ev.ended j o ∈ s.log → o = .ok ∨ o = .fail j) :
+    (hnc : ∀ j, Ev.cancelled (c.ctxOfJob j) ∉ s.log) (hid : ∀ j o, Ev.ended j o ∈ s.log → o = .ok ∨ o = .fail j) :
     s.loop.err = (s.log.filterMap Ev.seenFailId).map Res.fail ∧
     (s.log.filterMap Ev.seenFailId).Perm (failedIds s.log) := by
   obtain ⟨R, _⟩ := full_run hw hwf acts s hr
@@ -246,7 +246,7 @@ theorem coe_err_perm (c : Cfg) (hw : c.wiring = Wiring.std) (hwf : WfCfg c) (hc 
       | ctxErr =>
         rcases (R.i6.seenProd j _ hm).1 with ⟨o, h1, _⟩ | ⟨_, h2⟩ | ⟨h1, _⟩
         · cases o <;> simp [outcomeRes] at h1
-        · exact absurd (R.i6.skipCtx j h2) hnc
+        · exact absurd (R.i6.skipCtx j h2) (hnc _)
         · simp at h1
       | invalid => simp [Ev.errEntry, Ev.seenFailId]
     | _ => simp [Ev.errEntry, Ev.seenFailId]
@@ -274,21 +274,21 @@ theorem coe_err_perm (c : Cfg) (hw : c.wiring = Wiring.std) (hwf : WfCfg c) (hc 
       · have := eq_of_countP_le_one (R.i6.endedOnce j) h2 hm (by simp [Ev.isEndedOf]) (by simp [Ev.isEndedOf])
         simp at this; subst this
         exact ⟨_, hseen, by simp [h1, outcomeRes, Ev.seenFailId]⟩
-      · exact absurd (R.i6.skipCtx j h2) hnc
+      · exact absurd (R.i6.skipCtx j h2) (hnc _)
       · have hst := R.i6.endedStarted j _ hm
         have := eq_of_countP_le_one (R.i6.decOnce j) hst h2 (by simp [Ev.decides]) (by simp [Ev.decides])
         simp at this
 
-/-- ContinueOnError, loop left its `for`, no cancellation: a body that started has ended. -/
+/-- ContinueOnError, loop left its `for`, no job's context cancelled: a body that started has ended. -/
 theorem coe_started_ended (c : Cfg) (hw : c.wiring = Wiring.std) (hwf : WfCfg c) (hc : c.coe = true)
     (acts : List Act) (s : State) (hr : run c (init c) acts = some s) (hp : s.loop.phase ≠ .select)
-    (hnc : Ev.cancelled ∉ s.log) (j : Nat) (hst : Ev.started j ∈ s.log) : ∃ o, Ev.ended j o ∈ s.log := by
+    (hnc : ∀ j, Ev.cancelled (c.ctxOfJob j) ∉ s.log) (j : Nat) (hst : Ev.started j ∈ s.log) : ∃ o, Ev.ended j o ∈ s.log := by
   obtain ⟨R, _⟩ := full_run hw hwf acts s hr
   have hj := started_lt_sent hw hwf acts s hr j hst
   obtain ⟨r, hseen⟩ := C08_all_decided_at_exit c hw hwf hc acts s hr hp j hj
   rcases (R.i6.seenProd j r hseen).1 with ⟨o, _, h2⟩ | ⟨_, h2⟩ | ⟨_, h2⟩
   · exact ⟨o, h2⟩
-  · exact absurd (R.i6.skipCtx j h2) hnc
+  · exact absurd (R.i6.skipCtx j h2) (hnc _)
   · have := eq_of_countP_le_one (R.i6.decOnce j) hst h2 (by simp [Ev.decides]) (by simp [Ev.decides])
     simp at this
 
